@@ -468,6 +468,16 @@ fn e2e_direct(signs: &str, rest: &[&str]) -> Option<String> {
     let mut ctrls: Vec<((u16, usize), Sign)> = vec![];
     for o in ops {
         let p: Vec<&str> = o.split(',').collect();
+        // `raw,MSG`: traffic on the bus that does not come from any of the controllers of this line (another master,
+        // a technician's tool): put on the bus directly between two operations; the controllers are not told
+        if p.first() == Some(&"raw") {
+            let m = parse_msg(&p[1..].join(","))?;
+            match guarded(|| bus.borrow_mut().process_message(m).map(|r| show_reply(&r)).unwrap_or_else(|_| "bus".to_string())) {
+                None => return Some("PANIC".into()),
+                Some(r) => out.push(format!("raw:{}", r)),
+            }
+            continue;
+        }
         let (op, a, t, items) = match p.as_slice() {
             [op, a, t, items] => (*op, parse_u16(a)?, *TYPES.get(t.parse::<usize>().ok()?)?, parse_items(items)?),
             _ => return None,
@@ -535,6 +545,15 @@ fn run_case_inner(line: &str) -> Option<String> {
                 "DISAGREE-owned-borrowed".to_string()
             } else {
                 hex_of(&x)
+            }
+        }
+        // `Display for Frame`: the line a bus monitor prints, as hex of its bytes
+        ["fshow", a, ty, d] => {
+            let d = parse_hex(d)?;
+            let f = Frame::new(Address(parse_u16(a)?), MsgType(parse_u8(ty)?), Data::try_new(d).ok()?);
+            match guarded(|| format!("{}", f)) {
+                Some(s) => hex_of(s.as_bytes()),
+                None => "PANIC".to_string(),
             }
         }
         ["dec", d] => {
@@ -914,6 +933,7 @@ fn run_case_inner(line: &str) -> Option<String> {
             }
             crate::iomock::odk_case(n.parse().ok()?, signs, g[0], crate::iomock::parse_revs(g[1])?, crate::iomock::parse_wevs(g[2])?)?
         }
+        ["portctor", which] => crate::iomock::port_ctor_case(which)?,
         ["port", kind, prior, fail] => crate::iomock::port_case(kind, crate::iomock::parse_settings(prior)?, crate::iomock::parse_fail(fail)?)?,
         _ => return None,
     })
